@@ -120,7 +120,9 @@ func main() {
 	r := core.NewRun("C10", "exploration",
 		"every generated statement must return rows or an error through Engine.Query without a panic, a worker-process death or a hang (watchdog exceeded twice, the second time alone in a fresh process), and after every error SELECT 1 and a canary UPDATE succeed on the same session; distinct = (generator, function/template/mutation key, outcome class)")
 	r.Fold(4, 2)
-	r.Assume("domain exclusions decided on the statement text only: HANDLER FOR SQLEXCEPTION (known hang F31, replayed as pinned witness), SET GLOBAL/PERSIST (process-global state), INTO OUTFILE/LOAD DATA (file I/O), operands that wait by design (SLEEP(n>0), GET_LOCK timeouts), loop constructs inside token-mutated statements")
+	r.Assume("domain exclusions decided on the statement text only: HANDLER FOR SQLEXCEPTION (known hang F31, replayed as pinned witness), SET GLOBAL/PERSIST (process-global state), INTO OUTFILE/LOAD DATA (file I/O), operands that wait by design (SLEEP(n>0), GET_LOCK timeouts), loop constructs inside token-mutated statements, count operands >= 32767 of REPEAT/SPACE/LPAD/RPAD (known finding hang:space-huge-count: no max_allowed_packet bound; pinned witness)")
+	r.Assume("statements whose cost is exponential or unbounded by design are not generated (12-way self joins, catastrophic regular expressions, unbounded procedure recursion); the watchdog restatement of 'no hang' is 60 s exceeded twice, the second time alone in a fresh process")
+	r.Assume("panic signatures name the frame that raised the panic (below the last panic() call of the recovered stack), because planbuilder.Parse and several analyzer rules recover and re-panic")
 	r.Assume("the function sweep is a fixed enumeration (registry x arity x argument classes) independent of the seed; the seed selects the random argument tuples, the hostile-operand statements, the token mutations and the collation decorations")
 	r.Assume("canary DML refused with error 1792 inside a read-only transaction opened by the case itself is the specified behaviour, not a violation")
 
